@@ -372,6 +372,7 @@ pub fn property() -> Property {
             Tier::Thorough => 1500.0,
         },
         info: || PropInfo {
+            floors: vec![],
             rule: "one run = a victim (client/server, private/public plan) with 1..8 scripted genuine peers (response delays 0..200 ms) and a spoofer that sees each request's tid and injects 1..3 responses/errors per request from wrong port / adjacent IP / unrelated address, with the observed or a guessed future tid, timed before, between or after the genuine reply; four modes (nobody holds data + spoofs carry authentic data; single genuine holder racing spoofs; silent storers + spoofed acks; acking storers + spoofed errors); duplication of genuine replies on. Non-trivial = at least one spoof with a live tid was injected; distinct = delivery-order hash at the victim".into(),
             assumptions: vec!["late genuine replies (after timeout, before GC) are accepted by design and not judged".into()],
         },
